@@ -3,6 +3,7 @@ import PermutaModel.Lemmas.C16Fam
 import PermutaModel.Lemmas.C16Simple
 import PermutaModel.Props.C10
 import PermutaModel.Props.C14
+import PermutaModel.Lemmas.C16PinPerm
 
 /-!
 # C16 — the "finitely many simples" decision
@@ -11,11 +12,14 @@ Property theorems only.  `Model.C16.*` mirrors `pin_words.py:398-476`, `permset.
 `finitely_many_simples.py` and the body of `permtools simple`; the three pattern tables are the
 *generated* constants `Generated.c16_altBasis / c16_wedge1 / c16_wedge2`.
 
-Not provable here (Brignall–Ruškuc–Vatter, Schmerl–Trotter) and therefore only *evaluated* by the
-harness against brute-force counts of simple permutations and explicit families (see `PARTIAL`):
-`verdict_matches_simples`.  What *is* proved of it: whenever the special test answers "infinitely many",
-`Av(B)` contains simple permutations of every length `≥ 4` of one parity (`special_false_*`).  Invariance of the pin-sequence half under the symmetries and under
-re-ordering is covered by correspondence only (it needs the semantic theorem of C15).
+`verdict_matches_simples` (Brignall–Ruškuc–Vatter, Schmerl–Trotter), status:
+* PROVED: verdict `False` ⇒ `Av(B)` has simple permutations beyond every bound, whichever half failed
+  (`verdict_false_correct`; special half `special_false_*`, pin half `pin_false_infinitely_many_simples` through
+  the theorem of `Props/C14.lean` and the geometry of proper pin sequences, `Lemmas/C16Pin*.lean`); equivalently,
+  finitely many simples ⇒ verdict `True` (`verdict_true_of_finitely_many_simples`);
+* PROVED: the verdict is invariant under the eight symmetries and depends only on the class (`*_all`, section A6);
+* only *evaluated* by the harness against brute-force counts of simple permutations (see `PARTIAL`): the converse,
+  verdict `True` ⇒ finitely many simples (every long simple contains a long proper pin sequence, alternation or wedge).
 -/
 open Model Model.C15 Model.C16 C04L
 
@@ -480,5 +484,211 @@ example : hasFiniteSimples [[0, 1]] false false none = hasFiniteSimples [[0, 1],
   refine hasFiniteSimples_class_only_all _ _ (by decide) (by decide) ?_ _ _ _
   intro σ _
   simp
+
+-- ===== pv16: pin half =====
+
+/-! ## A7  the pin half: "infinitely many" is witnessed by simple permutations of the class
+
+`C14.hasFinitePinperms_iff` says what `has_finite_pinperms` decides: boundedness of the permutations of
+*strict* pin words (a numeral followed by direction letters) that avoid the basis.  The points of a strict
+pin word form a *proper pin sequence* (`C16P.PinSeqA`, from `decode_geometry`): every pin from the third
+on separates its predecessor from all earlier pins and lies beyond them on the other axis.  By the theorem
+of Brignall–Huczynska–Vatter (`C16P.classify`, `C16P.pinSeq_simple_sub`, proved in `Lemmas/C16PinGeo.lean`
+for arbitrary point configurations) such a configuration of at least seven points has no proper interval,
+or has none after deleting one of its two oldest points.  Classes are closed under deleting points, so an
+unbounded family of avoiding strict pin permutations gives avoiding simple permutations of unbounded length. -/
+
+/-- **strict pin permutations are almost simple** (Brignall–Huczynska–Vatter): the permutation `σ` of a
+    strict pin word of length `n ≥ 7` contains a simple permutation `τ` (interval definition of C10, and
+    `is_simple` says so) of length `≥ n - 1` – `σ` itself, or `σ` without its first or without its
+    second pin -/
+theorem strict_pin_perm_contains_large_simple (w : Model.C14.Word) (σ : NSeq)
+    (hs : Model.C14.isStrict w = true) (hσ : Model.C14.pinwordToPerm w = .ok σ) (hlen : 7 ≤ σ.length) :
+    ∃ τ, IsPerm τ ∧ Spec.C10.IsSimple τ ∧ isSimple τ = true ∧ σ.length ≤ τ.length + 1 ∧ Contains σ τ := by
+  obtain ⟨τ, h1, h2, h3, h4⟩ := C16P.strict_large_simple w σ hs hσ hlen
+  exact ⟨τ, h1, h2, (C10.isSimple_spec τ h1).mpr h2, h3, h4⟩
+
+/-- non-vacuity: the strict pin word `1RURURU` (an increasing oscillation) decodes, to a permutation of
+    length 7, so the theorem applies to it -/
+example : ∃ σ τ, Model.C14.pinwordToPerm [.q1, .R, .U, .R, .U, .R, .U] = .ok σ ∧ Spec.C10.IsSimple τ ∧
+    6 ≤ τ.length ∧ Contains σ τ := by
+  obtain ⟨σ, hσ, _, hl⟩ := C14.decode_total [.q1, .R, .U, .R, .U, .R, .U] (by decide)
+  obtain ⟨τ, _, h2, _, h4, h5⟩ := strict_pin_perm_contains_large_simple _ σ (by decide) hσ (by rw [hl]; decide)
+  refine ⟨σ, τ, hσ, h2, ?_, h5⟩
+  rw [hl] at h4; simp at h4; omega
+
+/-- **pin_false_infinitely_many_simples**: if the pin-sequence half `has_finite_pinperms(B)` answers
+    `False` then `Av(B)` contains simple permutations beyond every length bound, i.e. infinitely many -/
+theorem pin_false_infinitely_many_simples (B : List NSeq) (hB : ∀ x ∈ B, IsPerm x)
+    (h : hasFinitePinperms B = false) (L : Nat) :
+    ∃ τ, L ≤ τ.length ∧ 4 ≤ τ.length ∧ SimpleIn B τ := by
+  have hnb : ¬ ∃ N, ∀ w σ, Model.C14.isStrict w = true → Model.C14.pinwordToPerm w = .ok σ →
+      (∀ p ∈ B, ¬ Contains σ p) → σ.length ≤ N := by
+    intro hb
+    rw [(C14.hasFinitePinperms_iff B hB).mpr hb] at h
+    exact absurd h (by decide)
+  have hex : ∃ w σ, Model.C14.isStrict w = true ∧ Model.C14.pinwordToPerm w = .ok σ ∧
+      (∀ p ∈ B, ¬ Contains σ p) ∧ L + 7 < σ.length := by
+    apply Classical.byContradiction
+    intro hno
+    apply hnb
+    refine ⟨L + 7, fun w σ h1 h2 h3 => ?_⟩
+    apply Classical.byContradiction
+    intro hlt
+    exact hno ⟨w, σ, h1, h2, h3, by omega⟩
+  obtain ⟨w, σ, h1, h2, h3, h4⟩ := hex
+  obtain ⟨τ, t1, t2, t3, t4, t5⟩ := strict_pin_perm_contains_large_simple w σ h1 h2 (by omega)
+  exact ⟨τ, by omega, by omega, t1, t2, t3, fun x hx hc => h3 x hx (C16L.contains_trans t5 hc)⟩
+
+/-- non-vacuity: the pin half answers `False` for the class of all permutations (evaluated), so there
+    are simple permutations of length `≥ 100` – obtained here from pin sequences, not from the tables -/
+example : ∃ τ, 100 ≤ τ.length ∧ SimpleIn [] τ := by
+  obtain ⟨τ, h1, _, h2⟩ := pin_false_infinitely_many_simples [] (by simp) (by decide +kernel) 100
+  exact ⟨τ, h1, h2⟩
+
+/-- **verdict_false_correct**: whenever `has_finite_simples(B)` (any flag combination, no automaton
+    supplied) answers "infinitely many", the class `Av(B)` really has simple permutations beyond every
+    length bound – whichever of the two halves caused the answer -/
+theorem verdict_false_correct (B : List NSeq) (hB : ∀ x ∈ B, IsPerm x) (useDb checkAll : Bool)
+    (hv : hasFiniteSimples B useDb checkAll none = false) (L : Nat) :
+    ∃ σ, L ≤ σ.length ∧ 4 ≤ σ.length ∧ SimpleIn B σ := by
+  cases hpin : hasFinitePinperms B with
+  | false => exact pin_false_infinitely_many_simples B hB hpin L
+  | true => exact verdict_false_by_special_correct B hB useDb checkAll none hv hpin L
+
+/-- … equivalently (**one half of `verdict_matches_simples`**): if the simple permutations of `Av(B)`
+    have bounded length – the class has finitely many simples – then `has_finite_simples(B)` answers
+    `True` -/
+theorem verdict_true_of_finitely_many_simples (B : List NSeq) (hB : ∀ x ∈ B, IsPerm x) (useDb checkAll : Bool)
+    (hfin : ∃ N, ∀ σ, SimpleIn B σ → σ.length ≤ N) :
+    hasFiniteSimples B useDb checkAll none = true := by
+  obtain ⟨N, hN⟩ := hfin
+  cases hv : hasFiniteSimples B useDb checkAll none with
+  | true => rfl
+  | false =>
+    obtain ⟨σ, h1, _, h2⟩ := verdict_false_correct B hB useDb checkAll hv (N + 1)
+    have := hN σ h2
+    omega
+
+/-- the same for `Av(B).has_finitely_many_simples()`: the answer `False` of the class method is correct
+    – the class of the normalised basis has simple permutations beyond every length bound -/
+theorem av_false_correct (B : List NSeq) (hB : ∀ x ∈ B, IsPerm x) (poly : Bool)
+    (hv : avHasFinitelyManySimples B poly = .ok false) (L : Nat) :
+    ∃ σ, L ≤ σ.length ∧ 4 ≤ σ.length ∧ SimpleIn (basisOf B) σ := by
+  cases hpin : hasFinitePinperms (basisOf B) with
+  | true => exact av_false_by_special_correct B hB poly hv hpin L
+  | false =>
+    exact pin_false_infinitely_many_simples (basisOf B)
+      (fun x hx => hB x (C16Simple.basisOf_subset B x hx)) hpin L
+
+/-- non-vacuity: for the class of all permutations (empty basis) `has_finite_simples` answers `False`
+    (evaluated through the decision logic), and the theorem yields long simple permutations -/
+example : hasFiniteSimples [] false true none = false ∧ ∃ σ, 50 ≤ σ.length ∧ SimpleIn [] σ := by
+  have hv : hasFiniteSimples [] false true none = false := by
+    cases h : hasFiniteSimples [] false true none with
+    | false => rfl
+    | true =>
+      have := ((hasFiniteSimples_iff [] false true none).mp h).2
+      have hp : hasFinitePinperms [] = false := by decide +kernel
+      simp only [hasFinitePinpermsWith] at this
+      rw [hp] at this; exact absurd this (by decide)
+  obtain ⟨σ, h1, _, h2⟩ := verdict_false_correct [] (by simp) false true hv 50
+  exact ⟨hv, σ, h1, h2⟩
+
+/-- … and for `FinitelyManySimplesStrategy(B).applies()` (the basis passes through a `frozenset`): the
+    answer `False` is correct as well -/
+theorem strategy_false_correct (B : List NSeq) (hB : ∀ x ∈ B, IsPerm x) (h : strategyApplies B = false) (L : Nat) :
+    ∃ σ, L ≤ σ.length ∧ 4 ≤ σ.length ∧ SimpleIn B σ := by
+  unfold strategyApplies at h
+  obtain ⟨σ, h1, h2, h3, h4, h5, h6⟩ := verdict_false_correct B.eraseDups
+    (fun x hx => hB x (List.mem_eraseDups.mp hx)) false false h L
+  exact ⟨σ, h1, h2, h3, h4, h5, fun x hx => h6 x (List.mem_eraseDups.mpr hx)⟩
+example : ∃ σ, 20 ≤ σ.length ∧ SimpleIn [] σ := by
+  obtain ⟨σ, h1, _, h2⟩ := strategy_false_correct [] (by simp) (by
+    unfold strategyApplies
+    cases h : hasFiniteSimples ([] : List NSeq).eraseDups false false none with
+    | false => rfl
+    | true =>
+      have := ((hasFiniteSimples_iff _ false false none).mp h).1
+      exact absurd this (by decide)) 20
+  exact ⟨σ, h1, h2⟩
+
+/-! ### … in one of every two consecutive lengths (the form the property is stated in) -/
+
+/-- strict pin words are closed under prefixes, and the permutation of a prefix is a pattern of the
+    permutation of the word: the strict pin permutations of a class come in *every* length up to the
+    longest one -/
+theorem strict_pin_prefix (w : Model.C14.Word) (σ : NSeq) (hs : Model.C14.isStrict w = true)
+    (hσ : Model.C14.pinwordToPerm w = .ok σ) (k : Nat) (hk : k ≤ σ.length) :
+    ∃ σ', Model.C14.isStrict (w.take k) = true ∧ Model.C14.pinwordToPerm (w.take k) = .ok σ' ∧
+      σ'.length = k ∧ Contains σ σ' := by
+  obtain ⟨σ0, h0, _, hl⟩ := C14.decode_total w ((C14.decode_ok_iff w).mp ⟨σ, hσ⟩)
+  rw [hσ] at h0; cases h0
+  obtain ⟨σ', h1, h2, h3⟩ := C16P.prefix_contains w σ hσ k (by omega)
+  exact ⟨σ', C16P.isStrict_take w hs k, h1, h2, h3⟩
+example : ∃ σ', Model.C14.pinwordToPerm ([.q1, .R, .U, .R, .U, .R, .U].take 3) = .ok σ' ∧ σ'.length = 3 := by
+  obtain ⟨σ, hσ, _, hl⟩ := C14.decode_total [.q1, .R, .U, .R, .U, .R, .U] (by decide)
+  obtain ⟨σ', _, h1, h2, _⟩ := strict_pin_prefix _ σ (by decide) hσ 3 (by rw [hl]; decide)
+  exact ⟨σ', h1, h2⟩
+
+/-- **pin half, consecutive lengths**: if `has_finite_pinperms(B)` answers `False` then `Av(B)` contains a
+    simple permutation of length `n` or `n + 1` for *every* `n ≥ 6` -/
+theorem pin_false_simples_consecutive (B : List NSeq) (hB : ∀ x ∈ B, IsPerm x)
+    (h : hasFinitePinperms B = false) (n : Nat) (hn : 6 ≤ n) :
+    ∃ τ, (τ.length = n ∨ τ.length = n + 1) ∧ SimpleIn B τ := by
+  have hnb : ¬ ∃ N, ∀ w σ, Model.C14.isStrict w = true → Model.C14.pinwordToPerm w = .ok σ →
+      (∀ p ∈ B, ¬ Contains σ p) → σ.length ≤ N := by
+    intro hb
+    rw [(C14.hasFinitePinperms_iff B hB).mpr hb] at h
+    exact absurd h (by decide)
+  have hex : ∃ w σ, Model.C14.isStrict w = true ∧ Model.C14.pinwordToPerm w = .ok σ ∧
+      (∀ p ∈ B, ¬ Contains σ p) ∧ n + 1 < σ.length := by
+    apply Classical.byContradiction
+    intro hno
+    apply hnb
+    refine ⟨n + 1, fun w σ h1 h2 h3 => ?_⟩
+    apply Classical.byContradiction
+    intro hlt
+    exact hno ⟨w, σ, h1, h2, h3, by omega⟩
+  obtain ⟨w, σ, h1, h2, h3, h4⟩ := hex
+  obtain ⟨σ', p1, p2, p3, p4⟩ := strict_pin_prefix w σ h1 h2 (n + 1) (by omega)
+  obtain ⟨τ, t1, t2, t3, t4, t5⟩ := strict_pin_perm_contains_large_simple _ σ' p1 p2 (by omega)
+  have hle := Contains.length_le t5
+  refine ⟨τ, by omega, t1, t2, t3, fun x hx hc => h3 x hx (C16L.contains_trans (C16L.contains_trans p4 t5) hc)⟩
+example : ∃ τ, (τ.length = 30 ∨ τ.length = 31) ∧ SimpleIn [] τ :=
+  pin_false_simples_consecutive [] (by simp) (by decide +kernel) 30 (by omega)
+
+/-- **the statement of the property, direction "False"**: whenever `has_finite_simples(B)` answers
+    "infinitely many" (any flag combination, no automaton supplied), `Av(B)` has a simple permutation in
+    at least one of every two consecutive lengths `n`, `n + 1`, for all `n ≥ 6` – by Schmerl–Trotter this
+    is exactly how an infinite set of simples of a class looks -/
+theorem verdict_false_simples_consecutive (B : List NSeq) (hB : ∀ x ∈ B, IsPerm x) (useDb checkAll : Bool)
+    (hv : hasFiniteSimples B useDb checkAll none = false) (n : Nat) (hn : 6 ≤ n) :
+    ∃ σ, (σ.length = n ∨ σ.length = n + 1) ∧ SimpleIn B σ := by
+  cases hpin : hasFinitePinperms B with
+  | false => exact pin_false_simples_consecutive B hB hpin n hn
+  | true =>
+    apply special_false_simples_consecutive B hB _ n (by omega)
+    cases hs : hasFiniteSpecialSimples B with
+    | false => rfl
+    | true =>
+      have := (hasFiniteSimples_iff B useDb checkAll none).mpr ⟨hs, hpin⟩
+      rw [hv] at this; exact absurd this (by decide)
+example : ∃ σ, (σ.length = 12 ∨ σ.length = 13) ∧ SimpleIn [[0, 1, 2]] σ := by
+  refine verdict_false_simples_consecutive [[0, 1, 2]] (by decide) false true ?_ 12 (by omega)
+  cases h : hasFiniteSimples [[0, 1, 2]] false true none with
+  | false => rfl
+  | true =>
+    have h1 := ((hasFiniteSimples_iff _ false true none).mp h).1
+    have hB : ∀ x ∈ [[0, 1, 2]], IsPerm x := by decide
+    have : hasFiniteSpecialSimples [[0, 1, 2]] = false :=
+      (not_special_iff_subclass _ hB).mpr ⟨Generated.c16_altBasis, by simp [tables], D8.one, by
+        intro σ _ hav x hx
+        simp only [List.mem_singleton] at hx
+        subst hx
+        exact hav [0, 1, 2] (by decide)⟩
+    rw [this] at h1; exact absurd h1 (by decide)
+
+-- ===== pv16: end =====
 
 end C16
